@@ -1,4 +1,5 @@
 import Evl.Model.Encrypt
+import Evl.Generated.EncryptFacts
 /-!
 # C16 — encrypted and HMAC-ed values are correct under the key in force, across rotation
 
@@ -7,8 +8,12 @@ Model: M7's key material (`Keys`, `EventKeys`, `rotate`, `keyFor` / `saltFor` / 
 HKDF(key, salt, info) is what the harness establishes for every produced value with independent
 code (go-kms-wrapping's AEAD Decrypt with the candidate key, x/crypto/hkdf + crypto/hmac): a leaf is
 only canonicalised to `E<key>…` / `M<key>…` if that succeeds.  The atomicity of one value under
-concurrent rotation is the lock-set fact that encrypt / hmacSha256 read the triple inside one
-critical section on Filter.l (C19's table, group 5).
+concurrent rotation: `atomic_on_source` (regenerated: Rotate and the rotation-payload branch of Process
+replace wrapper, salt and info inside ONE exclusive section of Filter.l and call no method of the
+filter inside it; encrypt / hmacSha256 read the material inside one section) makes every rotation
+and every protection of one value an atomic step, and `under_material_in_force` shows that then
+every value is protected under the material left by some prefix of the rotations — wholly old or
+wholly new, never a mix.  The race scenario `encrot` searches real schedules for a mixed value.
 Assumed: AEAD decrypt ∘ encrypt = id, HKDF and HMAC themselves.
 -/
 namespace Evl.C16
@@ -70,5 +75,80 @@ theorem deterministic (k : Keys) (ek : Option EventKeys) (ov : Overrides) (f g :
     (h : f = g) : filterOne k ek ov f = filterOne k ek ov g := by rw [h]
 
 example : (rotateAll ⟨some 1, some 1, none⟩ [(none, some 2, none), (some 3, none, none)]) = ⟨some 3, some 2, none⟩ := by decide
+
+/-! ### one value under concurrent rotation -/
+
+/-- the atomic steps on the filter's key material: a rotation (Rotate or a rotation payload), and the
+protection of one value, which reads the material -/
+inductive KOp
+  | rot (w s i : Option Nat)
+  | protect
+  deriving DecidableEq, Repr, Inhabited
+
+/-- the key material each protection saw, in any serialisation of the atomic steps -/
+def seen : Keys → List KOp → List Keys
+  | _, [] => []
+  | k, .rot w s i :: rest => seen (rotate k w s i) rest
+  | k, .protect :: rest => k :: seen k rest
+
+/-- the key material in force at some moment: after each prefix of the steps -/
+def inForce : Keys → List KOp → List Keys
+  | k, [] => [k]
+  | k, .rot w s i :: rest => k :: inForce (rotate k w s i) rest
+  | k, .protect :: rest => inForce k rest
+
+theorem inForce_head (k : Keys) (ops : List KOp) : k ∈ inForce k ops := by
+  induction ops generalizing k with
+  | nil => simp [inForce]
+  | cons op rest ih =>
+    cases op with
+    | rot w s i => simp [inForce]
+    | protect => simpa [inForce] using ih k
+
+/-- **Wholly old or wholly new.**  Whatever the interleaving of rotations and protections (given that
+each is one atomic step, `atomic_on_source`), every value is protected under the complete key
+material left by some prefix of the rotations: never a wrapper of one rotation with the salt or
+info of another. -/
+theorem under_material_in_force (k : Keys) (ops : List KOp) : ∀ x ∈ seen k ops, x ∈ inForce k ops := by
+  induction ops generalizing k with
+  | nil => intro x hx; simp [seen] at hx
+  | cons op rest ih =>
+    cases op with
+    | rot w s i =>
+      intro x hx
+      simp only [seen] at hx
+      simp only [inForce, List.mem_cons]
+      exact Or.inr (ih _ x hx)
+    | protect =>
+      intro x hx
+      simp only [seen, List.mem_cons] at hx
+      simp only [inForce]
+      rcases hx with hx | hx
+      · subst hx; exact inForce_head _ rest
+      · exact ih _ x hx
+
+/-- with one rotation in flight a value is under the old or the new material -/
+theorem old_or_new (k : Keys) (w s i : Option Nat) (a b : Nat) :
+    ∀ x ∈ seen k (List.replicate a .protect ++ [.rot w s i] ++ List.replicate b .protect), x = k ∨ x = rotate k w s i := by
+  intro x hx
+  have := under_material_in_force k _ x hx
+  have hin : ∀ (n : Nat) (k' : Keys) (tl : List KOp), inForce k' (List.replicate n KOp.protect ++ tl) = inForce k' tl := by
+    intro n; induction n with
+    | zero => intro k' tl; rfl
+    | succ n ih => intro k' tl; simp only [List.replicate_succ, List.cons_append, inForce]; exact ih k' tl
+  rw [List.append_assoc, hin] at this
+  simp only [List.cons_append, List.nil_append, inForce] at this
+  have h2 := hin b (rotate k w s i) []
+  simp only [List.append_nil] at h2
+  rw [h2] at this
+  simpa [inForce] using this
+
+/-- the premise on the current source (regenerated on every run) -/
+theorem atomic_on_source : Evl.Generated.encryptFacts =
+    { rotateOneSection := true, rotationPayloadOneSection := true, rotationPayloadConsumed := true,
+      encryptOneSection := true, hmacSha256OneSection := true } := by decide
+
+example : seen ⟨some 1, some 1, some 1⟩ [.protect, .rot (some 2) (some 2) (some 2), .protect] =
+    [⟨some 1, some 1, some 1⟩, ⟨some 2, some 2, some 2⟩] := by decide
 
 end Evl.C16
